@@ -95,6 +95,14 @@ func c10Grow(c *Ctx, cp *c10Copy) {
 					}
 				}
 			}
+			// … or for a request beyond the sizes the property speaks about (0 to 2^30): a guard `size >=u K` with
+			// K above 2^30 that refuses what a 4 GiB address space cannot hold anyway
+			for _, cd := range p.Conds {
+				if cd.T.Op == "op" && len(cd.T.Args) == 2 && cd.Taken && (cd.T.Name == "ge_u" || cd.T.Name == "gt_u") &&
+					cd.T.Args[0].Op == "param" && cd.T.Args[1].Op == "const" && uint64(uint32(cd.T.Args[1].K)) > 1<<30 {
+					failed = true
+				}
+			}
 			if !failed {
 				probs = append(probs, at+": returns 0 although memory.grow was not tried and found to fail")
 			}
@@ -181,6 +189,73 @@ func c10Grow(c *Ctx, cp *c10Copy) {
 		}
 	}
 	c.Check(len(probs) == 0, rule, cp.key(f), cp.loc(f, 0), "bump = payload + 8; pages = ceil(X/64K) with X >= deficit; heap_top += pages·64K; 0 only after a failed grow", f.Name+": "+strings.Join(probs, "; "))
+
+	// ---- grow-decision-exact (added after differential probing of the allocator: `heap_ptr + block >= heap_top` was
+	// evaluated with i32.ge_s, so with a heap above 2 GiB — or a sum that wraps — the grow branch was skipped and a
+	// block beyond the end of memory was handed out; memory grew by ceil(block/64K) pages whatever room was left, so a
+	// request that fits after a smaller growth failed at the configured maximum; and an exact fit took the grow branch).
+	// The linear arithmetic of grow-covers-block is over the integers; this rule looks at the machine comparison:
+	// the test that decides between bumping and growing compares the block with the room `heap_top - heap_ptr`
+	// (a difference that cannot wrap) unsigned and strictly, and the pages asked for are ceil(deficit/64K) exactly.
+	const drule = "grow-decision-exact"
+	var dprobs []string
+	nDec := 0
+	room := wLinSub(wLin(ht), wLin(hp))
+	for i, p := range ps {
+		if p.End != "return" || len(p.Results) != 1 || wIsConst(p.Results[0], 0) {
+			continue
+		}
+		at := fmt.Sprintf("path %d (ends line %d)", i, p.Line)
+		gs := findGset(p, "$__heap_ptr")
+		if len(gs) != 1 {
+			continue
+		}
+		deficit := wLinSub(wLin(gs[0].Args[0]), wLin(ht))
+		grows := false
+		var growArg *wterm
+		for _, e := range p.Events {
+			if e.Kind == "grow" {
+				grows, growArg = true, e.Args[0]
+			}
+		}
+		for _, cd := range p.Conds {
+			if cd.T.Op != "op" || len(cd.T.Args) != 2 {
+				continue
+			}
+			d := wLinSub(wLin(cd.T.Args[0]), wLin(cd.T.Args[1]))
+			if k, isK := wLinSub(d, deficit).isConst(); !isK || k != 0 {
+				continue
+			}
+			nDec++
+			if !strings.HasSuffix(cd.T.Name, "_u") {
+				dprobs = append(dprobs, fmt.Sprintf("%s: the test `%s` that decides whether to grow is a signed comparison: addresses are unsigned, with the heap top above 2 GiB (or a sum that wraps) the branch goes the other way and a block beyond the end of memory is handed out", at, cd.T.String()))
+			}
+			r0, r1 := wLin(cd.T.Args[0]), wLin(cd.T.Args[1])
+			k0, ok0 := wLinSub(r0, room).isConst()
+			k1, ok1 := wLinSub(r1, room).isConst()
+			if !(ok0 && k0 == 0) && !(ok1 && k1 == 0) {
+				dprobs = append(dprobs, fmt.Sprintf("%s: the test `%s` compares a sum with heap_top instead of the block with the room heap_top - heap_ptr: heap_ptr + block can wrap round 2^32", at, cd.T.String()))
+			}
+			// strict: grow only when the block is larger than the room
+			blockLeft := ok1 && k1 == 0
+			strictGrow := (blockLeft && ((cd.T.Name == "gt_u" && cd.Taken == grows) || (cd.T.Name == "le_u" && cd.Taken != grows))) ||
+				(!blockLeft && ((cd.T.Name == "lt_u" && cd.Taken == grows) || (cd.T.Name == "ge_u" && cd.Taken != grows)))
+			if strings.HasSuffix(cd.T.Name, "_u") && !strictGrow {
+				dprobs = append(dprobs, fmt.Sprintf("%s: the test `%s` sends a block that fits exactly into the grow branch: at the configured maximum the request fails although the room is there", at, cd.T.String()))
+			}
+		}
+		if grows && growArg != nil && growArg.Op == "op" && len(growArg.Args) == 2 {
+			xl := wLinSub(wLin(growArg.Args[0]), wlin{C: 65535, Atoms: map[string]int64{}})
+			if k, isK := wLinSub(xl, deficit).isConst(); !isK || k != 0 {
+				dprobs = append(dprobs, fmt.Sprintf("%s: memory grows by ceil((%s)/64K) pages, not by the deficit block - (heap_top - heap_ptr): when the smaller growth fits within the configured maximum and this one does not, the allocation fails although it can be satisfied", at, xl))
+			}
+			if growArg.Name == "div_s" {
+				dprobs = append(dprobs, at+": the page count is computed with a signed division")
+			}
+		}
+	}
+	c.Check(len(dprobs) == 0, drule, cp.key(f), cp.loc(f, 0), "unsigned strict comparison of the block with heap_top - heap_ptr; pages = ceil(deficit/64K)", f.Name+": "+strings.Join(dprobs, "; "))
+	c.Min(drule, "deciding comparisons on the successful paths of "+f.Name+" in "+cp.Rel, nDec, 2)
 	c.Min(rule, "successful paths of "+f.Name+" in "+cp.Rel, nSucc, 2)
 	c.Min(rule, "growing paths of "+f.Name+" in "+cp.Rel, nGrow, 1)
 }
